@@ -13,7 +13,25 @@ KAFKA_CLIENT = ("confluent-kafka-go / librdkafka replaced by a scripted client b
                 "interface (modelled, not verified)")
 JSON_CODEC = "encoding/json round trip of recovery snapshots / wire messages (modelled as identity, exercised by the harness)"
 
+RECOVERY_TRUST = [KAFKA_CLIENT + "; cursor contract: after Assign(p@x) the client delivers x, x+1, ... in order, interleaved across partitions, "
+                  "stale/out-of-order records only via explicit 'msg' ops", JSON_CODEC,
+                  "golang.org/x/time/rate limiter replaced by an unlimited one in this component (rate is C19)"]
+
 PROPS = {
+    "C07": dict(
+        components=[("recovery", 1500, 50000)],
+        trusted=RECOVERY_TRUST,
+        assumptions=["offsets and ranges non-negative and well-formed; parallelrecoverymaxrate >= 1 (0 divides by zero in the code: recorded observation)",
+                     "a request replaced or widened under a running reader (foreign snapshot / second request changing 'to') is not judged by the Spec "
+                     "until the next refresh; model-vs-code comparison still applies"],
+    ),
+    "C09": dict(
+        components=[("recovery", 1500, 50000)],
+        seed_offset=7919,
+        trusted=RECOVERY_TRUST + ["a successor's tracker is rebuilt in the harness by replaying the recorded message log into a fresh instance; "
+                                  "the model keeps the tracker across 'crash' (justified by C08.snapshot_replication)"],
+        assumptions=["same as C07"],
+    ),
     "C20": dict(
         components=[("params", 5000, 200000)],
         trusted=["confluent ConfigMap.SetKey ({topic}. sub-map rule) modelled in classify/applyParam", "strconv.Atoi/ParseBool re-implemented in the "
